@@ -35,11 +35,20 @@ type vMarkerOnly struct{ i int }
 func (p *vMarkerOnly) id() int   { return p.i }
 func (p *vMarkerOnly) Priority() {}
 
+// Order() has a pointer receiver: a *vValOrd is an ordered participant, a plain vValOrd value is not
+type vValOrd struct {
+	i int
+	o int
+}
+
+func (p vValOrd) id() int     { return p.i }
+func (p *vValOrd) Order() int { return p.o }
+
 func vClass(p vP) int {
 	switch p.(type) {
 	case *vPrio:
 		return 0
-	case *vOrd:
+	case *vOrd, *vValOrd:
 		return 1
 	}
 	return 2
@@ -49,6 +58,8 @@ func vOrder(p vP) int {
 	case *vPrio:
 		return q.o
 	case *vOrd:
+		return q.o
+	case *vValOrd:
 		return q.o
 	}
 	return 0
@@ -60,7 +71,12 @@ func VerifC12Sort() {
 	n := nd.Param("N", 3)
 	var in []vP
 	for i := 0; i < n; i++ {
-		switch nd.Choose(4) {
+		switch nd.Choose(6) {
+		case 4:
+			in = append(in, &vValOrd{i: i, o: int(nd.Int64())})
+			nd.Cover("pointer of a type whose value is unordered")
+		case 5:
+			in = append(in, vValOrd{i: i})
 		case 0:
 			in = append(in, &vPrio{i: i, o: int(nd.Int64())})
 		case 1:
